@@ -804,7 +804,7 @@ func (p *pp) printArg(arg interface{}, verb rune) {
 
 			if f.CanInterface() {
 				p.arg = f.Interface()
-				if _, ok := p.arg.(i.SafeValue); ok {
+				if _, ok := p.arg.(i.SafeValue); ok || safeTypeRegistry[reflect.TypeOf(p.arg)] {
 					defer p.startSafeOverride().restore()
 				}
 				if p.handleMethods(verb) {
@@ -847,7 +847,7 @@ func (p *pp) printValue(value reflect.Value, verb rune, depth int) {
 
 		if value.CanInterface() {
 			p.arg = value.Interface()
-			if _, ok := p.arg.(i.SafeValue); ok {
+			if _, ok := p.arg.(i.SafeValue); ok || safeTypeRegistry[reflect.TypeOf(p.arg)] {
 				defer p.startSafeOverride().restore()
 			}
 			if p.handleMethods(verb) {
